@@ -415,7 +415,10 @@ class StringFormatterChecker:
         if spec.conv_type == "c":
             if isinstance(repl, (StrExpr, BytesExpr)) and len(repl.value) != 1:
                 self.msg.requires_int_or_char(call, format_call=True)
-            c_typ = get_proper_type(self.chk.lookup_type(repl))
+            # A replacement taken from *args / **kwargs is a TempNode carrying its type.
+            c_typ = get_proper_type(
+                repl.type if isinstance(repl, TempNode) else self.chk.lookup_type(repl)
+            )
             if isinstance(c_typ, Instance) and c_typ.last_known_value:
                 c_typ = c_typ.last_known_value
             if isinstance(c_typ, LiteralType) and isinstance(c_typ.value, str):
